@@ -47,6 +47,9 @@ type DialScenario struct {
 	Redial *DialScenario `json:"redial,omitempty"`
 	// Variant != 0: setters instead of options, chosen from this seed
 	Variant uint64 `json:"variant,omitempty"`
+	// CloseDuringAuth = k > 0 (RunAuthFirst only): while the server holds back its reply to the k-th line
+	// of the AUTH dialogue, another goroutine calls Client.Close() (a watchdog, a shutdown)
+	CloseDuringAuth int `json:"close_during_auth,omitempty"`
 }
 
 type DialRun struct {
@@ -83,7 +86,7 @@ func tlsMaterial() {
 		rogue, rogueKey := mkCA("rogue root")
 		tlsRoots = x509.NewCertPool()
 		tlsRoots.AddCert(root)
-		for _, host := range []string{"verif.example", "localhost", "127.0.0.1"} {
+		for _, host := range []string{"verif.example", "localhost", "127.0.0.1", "localhost.mail-relay.example", "LOCALHOST"} {
 			tlsGoodCfg[host] = &tls.Config{Certificates: []tls.Certificate{mkLeaf(host, root, rootKey)}}
 			tlsWrongName[host] = &tls.Config{Certificates: []tls.Certificate{mkLeaf("other.example", root, rootKey)}}
 			tlsUntrusted[host] = &tls.Config{Certificates: []tls.Certificate{mkLeaf(host, rogue, rogueKey)}}
@@ -442,6 +445,27 @@ func RunAuthFirst(sc *DialScenario) *DialRun {
 		}
 		if sc.LogAuth {
 			cl.SetLogAuthData()
+		}
+		if sc.CloseDuringAuth > 0 {
+			orig := srv.Dynamic
+			seen := 0
+			srv.Dynamic = func(pos int, verb, line string) (SrvAction, bool) {
+				if verb == "AUTH" || verb == "auth-step" {
+					seen++
+					if seen == sc.CloseDuringAuth {
+						go func() { _ = cl.Close() }()
+						time.Sleep(20 * time.Millisecond) // the closer is now waiting for the client's lock
+					} else if seen > sc.CloseDuringAuth {
+						// the closer has been overtaken once; while this command holds the lock it notices that it has
+						// been waiting for long and claims the lock for the moment it is released (sync.Mutex starvation mode)
+						time.Sleep(5 * time.Millisecond)
+					}
+				}
+				if orig != nil {
+					return orig(pos, verb, line)
+				}
+				return SrvAction{}, false
+			}
 		}
 		var a smtp.Auth
 		switch sc.AuthType {
